@@ -243,7 +243,11 @@ func TestVerifC16_Verify(t *testing.T) {
 		}
 		labels = append(labels, "setchange-trusted="+chain.chg[i])
 
-		// re-encoding both headers does not change the verdict
+		// re-encoding both headers does not change the verdict. Stated only for untrusted headers whose
+		// parts pass basic validation (what every wire decoder and Validate enforce before Verify is
+		// reached): on a malformed CommitSig cometbft's batch and single verification paths differ, and
+		// which path runs depends on how the trusted validator set was constructed.
+		wfUn := c16WellFormed(un)
 		via := rapid.SampledFrom([]string{"binary", "json"}).Draw(t, "via")
 		var t2, u2 *header.ExtendedHeader
 		var e1, e2 error
@@ -272,7 +276,9 @@ func TestVerifC16_Verify(t *testing.T) {
 			if pv2 != nil {
 				t.Fatalf("C16-verify: Verify panicked on %s re-encoded headers: %v\n%s", via, pv2, ctx)
 			}
-			if (err2 == nil) != acc {
+			if (err2 == nil) != acc && !wfUn {
+				labels = append(labels, "verify-reencode-differs-on-malformed-untrusted(not asserted)")
+			} else if (err2 == nil) != acc {
 				t.Fatalf("C16-encoding: Verify verdict changed by %s re-encoding: before accepted=%v (%v), after accepted=%v (%v)\n%s",
 					via, acc, err, err2 == nil, err2, ctx)
 			}
@@ -281,7 +287,7 @@ func TestVerifC16_Verify(t *testing.T) {
 			labels = append(labels, "verify-untrusted-not-encodable")
 		}
 
-		nontrivial := variant == "honest" || c16WellFormed(un)
+		nontrivial := variant == "honest" || wfUn
 		vk.RecordHash(vk.Hash64(env.desc.String(), i, j, variant, detail, fullBytes(un)), labels, nontrivial, func() any {
 			return map[string]any{"variant": variant, "detail": detail, "adjacent": adjacent, "accepted": acc, "error": fmt.Sprint(err),
 				"reference_ok": refOK, "untrusted": renderEH(un)}
